@@ -1,4 +1,4 @@
-// Verus unit friv: fri/src/folding/mod.rs fold_positions for EVERY list of positions and every domain.
+// Verus unit friv: fri/src/folding/mod.rs fold_positions for EVERY list of positions and every domain; utils::map_positions_to_indexes; verifier::get_query_values (second half of the file).
 // Decided (fold_inv): the result lists the images `position mod (source_domain_size / folding_factor)` of all given
 // positions - every image occurs (covers), every listed value is the image of a given position (sound), no value is
 // listed twice (nodup), every value is below the folded domain size. The Kani harness fri_fold_positions_bounded
@@ -231,6 +231,90 @@ proof fn lemma_index_injective(p1: int, p2: int, np: int, psize: int)
     // r1 * psize + q1 == r2 * psize + q2 with 0 <= q1, q2 < psize  ==>  r1 == r2 and q1 == q2
     assert(r1 == r2 && q1 == q2) by (nonlinear_arith)
         requires r1 * psize + q1 == r2 * psize + q2, 0 <= q1 < psize, 0 <= q2 < psize, r1 >= 0, r2 >= 0;
+}
+
+// ---------------------------------------------------------------------------------------------------------------------
+// fri/src/verifier/mod.rs get_query_values (C05 / C15): which cell of the opened rows each claimed evaluation is compared with.
+// For every list of positions, every list of folded positions that contains the image of each position (fold_positions'
+// contract), every domain size that the row width N divides: result[k] is cell (position_k / row_length) of the row opened
+// for the FIRST occurrence of position_k mod row_length among the folded positions; one value per position, in order; the
+// `unwrap` never fails and no index is out of range.
+// Literal rewrite (listed): `folded_positions.iter().position(|&v| v == X).unwrap()` becomes `first_index_of(folded_positions, X)
+// .unwrap()`, a shim with the contract of Iterator::position for that closure (index of the first equal element, None if absent).
+#[derive(Copy, Clone)]
+pub struct E(pub u64);
+pub open spec fn first_idx(s: Seq<usize>, x: usize) -> int
+    decreases s.len()
+{
+    if s.len() == 0 { -1 } else if s[0] == x { 0 } else {
+        let r = first_idx(s.subrange(1, s.len() as int), x);
+        if r < 0 { -1 } else { r + 1 }
+    }
+}
+proof fn l_first_idx(s: Seq<usize>, x: usize)
+    ensures
+        -1 <= first_idx(s, x) < s.len(),
+        first_idx(s, x) >= 0 ==> s[first_idx(s, x)] == x && forall|j: int| 0 <= j < first_idx(s, x) ==> s[j] != x,
+        first_idx(s, x) < 0 ==> forall|j: int| 0 <= j < s.len() ==> s[j] != x,
+    decreases s.len()
+{
+    if s.len() > 0 && s[0] != x {
+        let t = s.subrange(1, s.len() as int);
+        l_first_idx(t, x);
+        assert forall|j: int| 1 <= j < s.len() implies s[j] == t[j - 1] by {}
+        if first_idx(t, x) >= 0 {
+            assert forall|j: int| 0 <= j < first_idx(t, x) + 1 implies s[j] != x by { if j >= 1 { assert(s[j] == t[j - 1]); } }
+        } else {
+            assert forall|j: int| 0 <= j < s.len() implies s[j] != x by { if j >= 1 { assert(s[j] == t[j - 1]); } }
+        }
+    }
+}
+#[verifier::external_body]
+pub fn first_index_of(s: &[usize], x: usize) -> (r: Option<usize>)
+    ensures
+        first_idx(s@, x) >= 0 ==> r == Some(first_idx(s@, x) as usize),
+        first_idx(s@, x) < 0 ==> r is None,
+{ s.iter().position(|&v| v == x) }
+
+//@@ source fri/src/verifier/mod.rs
+//@@ extract anchor="fn get_query_values<E: FieldElement, const N: usize>("
+//@@ rewrite "folded_positions.iter().position(|&v| v == position % row_length)" => "first_index_of(folded_positions, position % row_length)"
+//@@ itername 1 it
+//@@ loop 1
+//@@|        invariant
+//@@|            N >= 1, row_length >= 1, row_length == domain_size / N, domain_size == N * row_length,
+//@@|            values@.len() >= folded_positions@.len(),
+//@@|            forall|k: int| 0 <= k < positions@.len() ==> #[trigger] positions@[k] < domain_size && first_idx(folded_positions@, (positions@[k] % row_length) as usize) >= 0,
+//@@|            0 <= it.index@ <= positions@.len(),
+//@@|            result@.len() == it.index@,
+//@@|            forall|k: int| 0 <= k < it.index@ ==> #[trigger] result@[k] ==
+//@@|                values@[first_idx(folded_positions@, (positions@[k] % row_length) as usize)]@[(positions@[k] / row_length) as int],
+//@@ loopstart 1
+//@@|        proof {
+//@@|            assert(*position == positions@[it.index@]);
+//@@|            l_first_idx(folded_positions@, (*position % row_length) as usize);
+//@@|            // position < N * row_length, so position / row_length < N
+//@@|            let q = *position as int / row_length as int;
+//@@|            assert(q * row_length <= *position) by (nonlinear_arith) requires q == *position as int / row_length as int, row_length >= 1, *position >= 0;
+//@@|            assert(q < N) by (nonlinear_arith) requires q * row_length <= *position, *position < N * row_length, row_length >= 1;
+//@@|        }
+pub fn get_query_values<const N: usize>(values: &[[E; N]], positions: &[usize], folded_positions: &[usize], domain_size: usize) -> (result: Vec<E>)
+    requires
+        N >= 1, domain_size >= N, domain_size % N == 0,
+        values@.len() >= folded_positions@.len(),
+        // every position is in the domain and its image is among the folded positions (what fold_positions returns)
+        forall|k: int| 0 <= k < positions@.len() ==> #[trigger] positions@[k] < domain_size
+            && first_idx(folded_positions@, (positions@[k] % (domain_size / N)) as usize) >= 0,
+    ensures
+        result@.len() == positions@.len(),
+        forall|k: int| 0 <= k < positions@.len() ==> #[trigger] result@[k] ==
+            values@[first_idx(folded_positions@, (positions@[k] % (domain_size / N)) as usize)]@[(positions@[k] / (domain_size / N)) as int],
+{
+    proof {
+        let rl = domain_size as int / N as int;
+        assert(domain_size as int == N * rl && rl >= 1) by (nonlinear_arith) requires rl == domain_size as int / N as int, domain_size as int % (N as int) == 0, N >= 1, domain_size >= N;
+    }
+    /*@@body*/
 }
 
 proof fn friv_canary_must_fail(r: Seq<usize>, ps: Seq<usize>, t: int)
